@@ -267,6 +267,32 @@ def run(prog: Program, chk: Check):
     S.decide(nst >= 2 and not badst, f"{MB}|decoder-stores-verbatim", where(decf, ld), f"{nst} store(s) of `{dpar}[{dname}]` itself into the object",
              f"_from_dict stores a transformed value instead of `{dpar}[{dname}]`: {badst} (a falsy value such as -0.0 would be replaced)")
 
+    # ... and every field is stored whatever its value: no way round one iteration of the decoder avoids all of its stores
+    # (a "skip zeros, the object is zero-initialised anyway" fast path loses -0.0; a falsy string, an empty list)
+    dg_ = C.build(decf.node)
+    dhead = [n for n in dg_.nodes if n.kind == "for" and n.ast is ld]
+    store_ids = set()
+    for n in dg_.nodes:
+        if n.ast is None or not any(a is ld for a in _anc(n.ast)):
+            continue
+        for c in node_calls(n):
+            if isinstance(c.func, ast.Name) and c.func.id in ("setattr", decf.name):
+                store_ids.add(n.id)
+        if n.kind == "stmt" and isinstance(n.ast, ast.Assign) and any(isinstance(t, ast.Subscript) and isinstance(t.value, ast.Call) and norm(t.value.func) == "getattr" for t in n.ast.targets):
+            store_ids.add(n.id)
+    okst = bool(dhead) and bool(store_ids)
+    if okst:
+        starts = [e.dst for e in dg_.succ[dhead[0].id] if e.kind == "iter"]
+        r_ = flow.reach(dg_, starts, blocked=store_ids, follow=lambda e: e.kind not in ("exc", "except"), blocked_pass_exc=False)
+        # a for loop nested in the body (struct arrays: one recursive call per element) may run zero times: its header is not a bypass
+        if dhead[0].id in r_ and not all(s_ in store_ids for s_ in starts):
+            # tolerate only the inner element loop of the struct-array case finishing (it stores per element)
+            inner_heads = {n.id for n in dg_.nodes if n.kind == "for" and n.ast is not ld and any(a is ld for a in _anc(n.ast)) and any(x.id in store_ids for x in dg_.nodes if x.ast is not None and any(a is n.ast for a in _anc(x.ast)))}
+            r2_ = flow.reach(dg_, starts, blocked=store_ids | inner_heads, follow=lambda e: e.kind not in ("exc", "except"), blocked_pass_exc=False)
+            okst = dhead[0].id not in r2_
+    S.decide(okst, f"{MB}|decoder-stores-every-field", where(decf, ld), "every iteration of the decoder stores the field, whatever its value",
+             "_from_dict can skip the store of a field depending on its value (zero / empty / falsy): what is read back differs from what was encoded, e.g. -0.0")
+
     je = prog.func(MB, "RTMAJSONEncoder.default")
     tests = [norm(n.test) for n in walk_local(je.node) if isinstance(n, ast.If)]
     need = {"bytes": any("bytes" in t for t in tests), "ctypes.Array": any("ctypes.Array" in t for t in tests), "MessageBase": any("MessageBase" in t or "to_dict" in t for t in tests)}
